@@ -57,14 +57,14 @@ def project(store):
     out = []
     for a1, m in store._dict.items():
         for a0, q in m.items():
-            items = list(q._queue)
+            items = list(getattr(q, '_queue', q))         # asyncio.Queue / queue.Queue keep a deque in _queue; a plain deque or list is taken as it is
             if items:
                 out.append({'a0': a0, 'a1': a1, 'q': [[c.decode(), dec(d)] for c, d in items]})
     return out
 
 
 def concrete_fp(store):
-    return repr(sorted((a1, a0, [(c, bytes(d)) for c, d in q._queue]) for a1, m in store._dict.items() for a0, q in m.items()))
+    return repr(sorted((a1, a0, [(c, bytes(d)) for c, d in getattr(q, '_queue', q)]) for a1, m in store._dict.items() for a0, q in m.items()))
 
 
 def pat(v):
